@@ -12,6 +12,7 @@ import (
 	"sync/atomic"
 	"time"
 
+	"github.com/hashicorp/go-plugin/verifhook"
 	"github.com/hashicorp/yamux"
 )
 
@@ -66,6 +67,7 @@ func (m *MuxBroker) Accept(id uint32) (net.Conn, error) {
 		return nil, fmt.Errorf("timeout waiting for accept")
 	}
 
+	verifhook.Point("muxbroker.accept.taken")
 	// Ack our connection
 	if err := binary.Write(c, binary.LittleEndian, id); err != nil {
 		c.Close()
@@ -103,6 +105,7 @@ func (m *MuxBroker) Dial(id uint32) (net.Conn, error) {
 		return nil, err
 	}
 
+	verifhook.Point("muxbroker.dial.opened")
 	// Write the stream ID onto the wire.
 	if err := binary.Write(stream, binary.LittleEndian, id); err != nil {
 		stream.Close()
